@@ -150,6 +150,19 @@ func bytesToInt(b []byte) uint64 {
 	}
 }
 
+// checkKeySize checks if a key has a size that LMDB can handle for the DBI.
+// MDB_INTEGERKEY keys are native unsigned int or size_t values.
+func checkKeySize(key []byte, integerKey bool) error {
+	n := len(key)
+	if n == 0 || n > LMDBMaxKeySize {
+		return fmt.Errorf("invalid key size %d", n)
+	}
+	if integerKey && n != 4 && n != 8 {
+		return fmt.Errorf("invalid key size %d for integer key DBI", n)
+	}
+	return nil
+}
+
 // setNewVal updates the LMDB if the value has changed. If the new value is
 // empty, the key is removed instead.
 func setNewVal(txn *lmdb.Txn, dbi lmdb.DBI, key, oldVal, newVal []byte) error {
